@@ -178,8 +178,9 @@ def run(R):
         R.violation("C17.json", "print|serde", "JSON records are not produced by serde_json::to_string on a Map", [f.loc()])
     # route
     fe = R.need_fn("sqlgrep::executor::FileExecutor::execute")
-    prs = PR.calls_matching(fe, r"^sqlgrep::executor::OutputPrinter::print$")
-    ex = PR.calls_matching(fe, r"ExecutionEngine::execute$")
+    from . import rules_exec_loops as L
+    prs = L.calls_reaching(fe, r"^sqlgrep::executor::OutputPrinter::print$")
+    ex = L.calls_reaching(fe, r"ExecutionEngine::execute$")
     inl = [c for c in prs if PR.loop_of(fe, c.bb)]
     out = [c for c in prs if not PR.loop_of(fe, c.bb)]
     if len(inl) == 1 and len(out) == 1:
